@@ -277,7 +277,7 @@ def layout_rewrite(ri: int, pos: int) -> None:
 STRAY = [')', ']', 'stray', '=>', '}', '1.5', ':', '$', '"', 'for', '))', '\x00', '0', "''", ';', '\n', '.', ',', 'not', 'if', '%', '\\', '0.0', '==', '\r\n', '#']
 
 
-def _damage(pi, si, pos, sep, trunc, pre_list, cached, class_only):
+def _damage(pi, si, pos, sep, trunc, pre_list, cached, class_only, soundness=False):
     """one damaged text through the real lexer+parser; returns a failure message or None ('skip' when pos is past the end)"""
     P = CACHING if cached else PARSER
     base = PROGRAMS[pi]
@@ -318,6 +318,16 @@ def _damage(pi, si, pos, sep, trunc, pre_list, cached, class_only):
         P.yacc.errorfunc = orig
     if res[0] == 'other':
         return "%r: %s" % (text, res[1])
+    if soundness:
+        # accepted => the published token definitions accept every character and the published productions derive the text
+        if res[0] == 'ok':
+            from spec import reflang
+            rt = reflang.ref_tokens(text)
+            if rt is None:
+                return "%r is accepted although the published token definitions reject one of its characters" % (text,)
+            if not reflang.derivable(rt):
+                return "%r is accepted although the published grammar does not derive its token string %s" % (text, ' '.join(rt))
+        return None
     if class_only:
         return None
     if res[0] == 'parser_error' and res[2] != 'none':
@@ -346,6 +356,7 @@ def error_line(si: int, pos: int, sep: int, trunc: bool, pre_list: bool = False,
     hlib.enter(locals())
     pi = hlib.PARAM["program"]
     class_only = bool(hlib.PARAM.get("class_only"))
+    soundness = bool(hlib.PARAM.get("soundness"))
     si, sep = hlib.concrete(si, 0, 25), hlib.concrete(sep, 0, 2)
     trunc = True if trunc else False
     pre_list = True if pre_list else False
@@ -356,7 +367,7 @@ def error_line(si: int, pos: int, sep: int, trunc: bool, pre_list: bool = False,
     bad = None
     with hlib.native():
         for q in range(NBOUND[pi] + 1):
-            r = _damage(pi, si, q, sep, trunc, pre_list, cached, class_only)
+            r = _damage(pi, si, q, sep, trunc, pre_list, cached, class_only, soundness)
             if r == 'skip':
                 break
             if r is not None:
